@@ -48,6 +48,30 @@ func encodeOf(q Sketch, omit bool) []byte {
 	return b
 }
 
+// encodingsUnderOrders: the encodings of q under the default map order and
+// under each order deviation (they differ only for sparse producers).
+func encodingsUnderOrders(q Sketch, omit bool) [][]byte {
+	out := [][]byte{encodeOf(q, omit)}
+	if !mc.MapOrderControlled {
+		return out
+	}
+	for _, ord := range mapOrders {
+		SetMapOrder(ord.perm)
+		e := encodeOf(q, omit)
+		SetMapOrder(nil)
+		dup := false
+		for _, x := range out {
+			if bytes.Equal(x, e) {
+				dup = true
+			}
+		}
+		if !dup {
+			out = append(out, e)
+		}
+	}
+	return out
+}
+
 func supplied(md *SkModel, omit bool) mapping.IndexMapping {
 	if omit {
 		return md.Map
@@ -85,8 +109,10 @@ func checkC06(w *SketchWorld, slot int) (fails []mc.Fail) {
 		}
 		enc2 := buf[3:]
 		mc.Count("encodings", 1)
+		all := append([][]byte{enc, enc2}, encodingsUnderOrders(q, omit)[1:]...)
+		mc.Count("encodings_under_order_deviations", int64(len(all)-2))
 		for _, t := range codecTargets {
-			for n, e := range [][]byte{enc, enc2} {
+			for n, e := range all {
 				dec, err := DecodeSlot(e, t, sl.Exact, supplied(md, omit))
 				if err != nil {
 					fail("C06.round-trip", "decoding into %s stores (omitMapping=%v, encoding #%d % x) failed: %v", t, omit, n+1, e, err)
@@ -224,56 +250,57 @@ func checkC07(w *SketchWorld, slot int) (fails []mc.Fail) {
 		fails = append(fails, mc.Fail{Clause: clause, Detail: where + fmt.Sprintf(format, a...)})
 	}
 	for _, omit := range []bool{false, true} {
-		enc := encodeOf(q, omit)
-		blocks, werr := model.ParseWire(enc)
-		if werr != nil {
-			fail("C07.documented-format", "the encoding % x is not a sequence of documented blocks: %v", enc, werr)
-			return
-		}
-		c := model.ContentOf(blocks)
-		if d := wireVsHeld(c, q); d != "" {
-			fail("C07.documented-format", "an independent decoder reads other content from % x: %s\n  read: %s\n  held: %s", enc, d, wireContentString(c), SketchContent(q))
-			return
-		}
-		gamma, offset := mapParams(md.Map)
-		if omit {
-			if c.HasMapping {
-				fail("C07.documented-format", "a mapping block is present although omitIndexMapping was set")
+		for _, enc := range encodingsUnderOrders(q, omit) {
+			blocks, werr := model.ParseWire(enc)
+			if werr != nil {
+				fail("C07.documented-format", "the encoding % x is not a sequence of documented blocks: %v", enc, werr)
+				return
 			}
-		} else if c.Mappings != 1 || c.MapKind != wireMapKind(md.Map) || c.Gamma != gamma || c.Offset != offset {
-			fail("C07.documented-format", "mapping block(s) %d kind %d gamma %v offset %v; the sketch has kind %d gamma %v offset %v", c.Mappings, c.MapKind, c.Gamma, c.Offset, wireMapKind(md.Map), gamma, offset)
-		}
-		if sl.Exact && !q.IsEmpty() {
-			mn, _ := q.GetMinValue()
-			mx, _ := q.GetMaxValue()
-			if !c.HasStats || c.Count != (q.GetCount()+1)-1 || c.Sum != q.GetSum() || c.Min != mn || c.Max != mx {
-				fail("C07.documented-format", "statistics blocks count=%v sum=%v min=%v max=%v; the sketch reports %v %v %v %v", c.Count, c.Sum, c.Min, c.Max, q.GetCount(), q.GetSum(), mn, mx)
+			c := model.ContentOf(blocks)
+			if d := wireVsHeld(c, q); d != "" {
+				fail("C07.documented-format", "an independent decoder reads other content from % x: %s\n  read: %s\n  held: %s", enc, d, wireContentString(c), SketchContent(q))
+				return
 			}
-		}
-		if !sl.Exact && c.HasStats {
-			fail("C07.documented-format", "a plain sketch wrote statistics blocks")
-		}
-		mc.Count("encodings_parsed", 1)
-		if sl.Exact {
-			// the plain decoder accepts it and ignores the statistics; the content is
-			// what the documentation assigns to the blocks (weights through +1/-1)
-			for _, t := range codecTargets {
-				dec, err := ddsketch.DecodeDDSketch(enc, t.Provider(), supplied(md, omit))
-				if err != nil {
-					fail("C07.plain-decodes-exact", "DecodeDDSketch of the encoding % x of a sketch with exact statistics failed: %v", enc, err)
-					return
+			gamma, offset := mapParams(md.Map)
+			if omit {
+				if c.HasMapping {
+					fail("C07.documented-format", "a mapping block is present although omitIndexMapping was set")
 				}
-				exp := NewSkModel(t, md.Spec, md.Map)
-				for _, k := range sortedKeys(c.Pos) {
-					exp.Pos.Add(k, c.Pos[k])
+			} else if c.Mappings != 1 || c.MapKind != wireMapKind(md.Map) || c.Gamma != gamma || c.Offset != offset {
+				fail("C07.documented-format", "mapping block(s) %d kind %d gamma %v offset %v; the sketch has kind %d gamma %v offset %v", c.Mappings, c.MapKind, c.Gamma, c.Offset, wireMapKind(md.Map), gamma, offset)
+			}
+			if sl.Exact && !q.IsEmpty() {
+				mn, _ := q.GetMinValue()
+				mx, _ := q.GetMaxValue()
+				if !c.HasStats || c.Count != (q.GetCount()+1)-1 || c.Sum != q.GetSum() || c.Min != mn || c.Max != mx {
+					fail("C07.documented-format", "statistics blocks count=%v sum=%v min=%v max=%v; the sketch reports %v %v %v %v", c.Count, c.Sum, c.Min, c.Max, q.GetCount(), q.GetSum(), mn, mx)
 				}
-				for _, k := range sortedKeys(c.Neg) {
-					exp.Neg.Add(k, c.Neg[k])
-				}
-				exp.Zero = c.Zero
-				if got, want := SketchContent(dec), exp.Content(); got != want {
-					fail("C07.plain-decodes-exact", "DecodeDDSketch (into %s stores) of the exact variant's encoding\n  got:  %s\n  want: %s", t, got, want)
-					return
+			}
+			if !sl.Exact && c.HasStats {
+				fail("C07.documented-format", "a plain sketch wrote statistics blocks")
+			}
+			mc.Count("encodings_parsed", 1)
+			if sl.Exact {
+				// the plain decoder accepts it and ignores the statistics; the content is
+				// what the documentation assigns to the blocks (weights through +1/-1)
+				for _, t := range codecTargets {
+					dec, err := ddsketch.DecodeDDSketch(enc, t.Provider(), supplied(md, omit))
+					if err != nil {
+						fail("C07.plain-decodes-exact", "DecodeDDSketch of the encoding % x of a sketch with exact statistics failed: %v", enc, err)
+						return
+					}
+					exp := NewSkModel(t, md.Spec, md.Map)
+					for _, k := range sortedKeys(c.Pos) {
+						exp.Pos.Add(k, c.Pos[k])
+					}
+					for _, k := range sortedKeys(c.Neg) {
+						exp.Neg.Add(k, c.Neg[k])
+					}
+					exp.Zero = c.Zero
+					if got, want := SketchContent(dec), exp.Content(); got != want {
+						fail("C07.plain-decodes-exact", "DecodeDDSketch (into %s stores) of the exact variant's encoding\n  got:  %s\n  want: %s", t, got, want)
+						return
+					}
 				}
 			}
 		}
